@@ -107,6 +107,15 @@ Definition ep_get_date_type_respin (v : pyval) : pyval :=
   | _ => bad_input
   end.
 
+Definition ep_get_date_type_respin_rx (v : pyval) : pyval :=
+  match v with
+  | PStr s => out_result (fun o => match o with
+                                   | None => PNone
+                                   | Some (d, t, r) => PList [PStr d; PStr t; PN r]
+                                   end) (get_date_type_respin_rx s)
+  | _ => bad_input
+  end.
+
 Definition ep_compose_id_valid (v : pyval) : pyval :=
   match v with PStr s => PBool (compose_id_valid s) | _ => bad_input end.
 
@@ -149,4 +158,5 @@ Definition entries_str : list (str * (pyval -> pyval)) :=
     (lit "valid3", ep_valid3);
     (lit "create_compose_id", ep_create_compose_id);
     (lit "get_date_type_respin", ep_get_date_type_respin);
+    (lit "get_date_type_respin_rx", ep_get_date_type_respin_rx);
     (lit "compose_id_valid", ep_compose_id_valid) ].
